@@ -3,7 +3,7 @@
    correspondence run (reference oracle on the implementation side). *)
 From Coq Require Import ZArith List Bool Lia.
 From MV Require Import Ast Eval Scalar Machine.
-From MV.Proofs Require Import Arith Logic Prim View OpsLocal Guards Drops DrainIt IntoIt FilterIt Core Refine DrainAbs.
+From MV.Proofs Require Import Arith Logic Prim View OpsLocal Guards Drops DrainIt IntoIt FilterIt Core Refine DrainAbs IterAt.
 Import ListNotations.
 Open Scope Z_scope.
 
@@ -157,3 +157,42 @@ Theorem C10_drain_whole_life_follows_the_cursor :
   post (drain_whole cfg ncap v bs be steps tmp s) (fun r s' => r = fst (cursor w steps) /\ Q s') Q.
 Proof. exact drain_abs. Qed.
 Print Assumptions C10_drain_whole_life_follows_the_cursor.
+
+(* The stepping methods as they run on an iterator OBJECT of the world -- the functions the translated
+   bodies of Drain::next / next_back and IntoIter::next / next_back / len are re-proved equal to on every
+   run (EquivIter.v) and that the correspondence run executes -- are, on a well-formed iterator, the
+   value-passing functions of the protocol theorems above followed by storing the new iterator value. *)
+Theorem C10_drain_next_on_the_object :
+  forall cfg, cfg_ok cfg -> forall s i d b bl off a j r,
+  iter_get i s = (Val (IDrain d), s) -> drain_inv cfg s d b bl off a j r ->
+  exists o d', drain_next cfg d s = (Val (o, d'), s) /\
+    drain_next_at cfg i s = (Val o, match o with Some _ => with_iter s i (IDrain d') | None => s end).
+Proof. exact drain_next_at_eq. Qed.
+Theorem C10_drain_next_back_on_the_object :
+  forall cfg, cfg_ok cfg -> forall s i d b bl off a j r,
+  iter_get i s = (Val (IDrain d), s) -> drain_inv cfg s d b bl off a j r ->
+  exists o d', drain_next_back cfg d s = (Val (o, d'), s) /\
+    drain_next_back_at cfg i s = (Val o, match o with Some _ => with_iter s i (IDrain d') | None => s end).
+Proof. exact drain_next_back_at_eq. Qed.
+Theorem C10_into_next_on_the_object :
+  forall cfg, cfg_ok cfg -> forall s i it b bl off p,
+  iter_get i s = (Val (IInto it), s) -> into_inv cfg s it b bl off p ->
+  exists o it' s', into_next cfg it s = (Val (o, it'), s') /\
+    into_next_at cfg i s = (Val o, match o with Some _ => with_iter s' i (IInto it') | None => s' end).
+Proof. exact into_next_at_eq. Qed.
+Theorem C10_into_next_back_on_the_object :
+  forall cfg, cfg_ok cfg -> forall s i it b bl off p,
+  iter_get i s = (Val (IInto it), s) -> into_inv cfg s it b bl off p ->
+  exists o it' s', into_next_back cfg it s = (Val (o, it'), s') /\ it' = it /\
+    into_next_back_at cfg i s = (Val o, s').
+Proof. exact into_next_back_at_eq. Qed.
+Theorem C10_into_len_on_the_object :
+  forall cfg, cfg_ok cfg -> forall s i it b bl off p,
+  iter_get i s = (Val (IInto it), s) -> into_inv cfg s it b bl off p ->
+  into_len_at i s = (Val (h_len bl), s).
+Proof. exact into_len_at_eq. Qed.
+Print Assumptions C10_drain_next_on_the_object.
+Print Assumptions C10_drain_next_back_on_the_object.
+Print Assumptions C10_into_next_on_the_object.
+Print Assumptions C10_into_next_back_on_the_object.
+Print Assumptions C10_into_len_on_the_object.
